@@ -33,7 +33,13 @@ EXPLANATION = (
     "function of N and is constant-folded for every N of the finite domain 1..64 (Python: the constructor's own statements "
     "through the whitelisted folder, C: the forward-substituted helper term) and compared with (1 << bits(N)) - 1, however "
     "it is written, loops included (the OR-of-shifts reading is recorded as evidence only); a single conditional subtraction "
-    "is accepted as `mod N` only with an interval proof operand <= 2N - 1 for every N; the time decomposition (T1 mod 64, T2, T3) is "
+    "is rewritten to `mod N` with an interval proof operand <= 2N - 1 for every N; any other arrangement of conditional "
+    "subtractions (a chain, a chain behind a threshold test with a `%` fall-back, a cascade over the multiples of N -- an inlined "
+    "division-free reduction helper) that is a function of one operand sub-term and N is folded for every N in 1..64 and every "
+    "integer of the operand's interval enclosure (finite, exhaustive) and rewritten to `mod N` when it equals operand mod N on all "
+    "of it; a subtraction with neither proof is kept as written and reported only when the term as written and the term with "
+    "`mod N` in its place select different channels on a witness of the formula families (else: open structural proof); "
+    "the time decomposition (T1 mod 64, T2, T3) is "
     "compared with TS 45.002 4.3.3 on both sides, the table index is bounded by intervals (HSN range established by the "
     "constructor's guard) and the frequency getters must pass their own frame number to resolve(). All inputs are covered "
     "because formulas, tables and guards are compared, not values. In addition (R7) the simulator object is decided as "
@@ -54,7 +60,10 @@ EXPLANATION = (
     "folded for each of the 2715648 frame numbers (complete). The HSN range check of the constructor, when it is not written as "
     "comparisons with constants, is decided by folding the constructor for candidates on both sides of 0..63. A frequency getter "
     "may return a memo of resolve() only under guards on the HoppingParams object and the frame number, every store to the memo "
-    "(read from the source as written) being None or (object, fn, object.resolve(fn)). The firmware's use of the generator is read from "
+    "(read from the source as written) being None or (object, fn, object.resolve(fn)); what is stored as a transceiver's `fh` is "
+    "decided by the origin of the value (None / a HoppingParams(...) call, followed through local temporaries -- every plain "
+    "assignment of the local -- and conditional expressions; a container, literal or *args is refuted, an origin that cannot be "
+    "traced gives no verdict). The firmware's use of the generator is read from "
     "the value rfch_get_params() stores through its ARFCN output parameter (forward substitution, helpers handed the caller's time "
     "substituted): every generator call that reaches it takes rfch_get_params()'s own time and the (hsn, maio, n, ma) of one descriptor; "
     "an argument computed from descriptor fields (the allocation length clamped to the size of the ma[] table) is decided over the "
@@ -251,7 +260,8 @@ DOMAIN_N = range(1, 65)
 
 # operators of the specification term, plus plain integer operators that the checker folds exactly (a term using them
 # is either equal to the specification term in normal form or decided on witnesses -- see compare_formula)
-ALLOWED = {"c", "v", "+", "mod", "^", "idx", "ite", "cmp", "not", "and", "or", "div", "none", "raise", "*", "&", "|", "<<", ">>"}
+# -- and a conditional subtraction that settle_reductions could not turn into `mod N` (folded as written by R3)
+ALLOWED = {"c", "v", "+", "mod", "^", "idx", "ite", "cmp", "not", "and", "or", "div", "none", "raise", "*", "&", "|", "<<", ">>", "red"}
 
 
 def check_vocabulary(t, where):
@@ -352,6 +362,33 @@ def fold_formula(term, rntable, limit=5):
             if len(bad) >= limit:
                 break
     return k, bad
+
+
+def fold_pair(a, b, rntable):
+    """two hopping terms folded on the witnesses of formula_witnesses() and compared with each other: (witnesses folded,
+    text of the first witness on which they select different channels, or None).  A fold that leaves a table counts as
+    a value of its own (the text of the overrun)."""
+    fa, fb = (G.term_fn(t, TERM_NAMES, TERM_PARAMS) for t in (a, b))
+    rn = tuple(rntable)
+    mas = {n: tuple(1000 + 3 * i for i in range(n)) for n in DOMAIN_N}
+    k = 0
+    for hsn, maio, n, fn in formula_witnesses():
+        k += 1
+        args = (fn, fn // 1326, fn % 26, fn % 51, hsn, maio, n, nbin_mask(n) + 1, mas[n], rn)
+        got = []
+        for f in (fa, fb):
+            try:
+                got.append(f(*args))
+            except G._Outside as e:
+                got.append(str(e))
+            except (ArithmeticError, TypeError, ValueError) as e:
+                raise AnalysisError("hopping term cannot be folded for HSN = %d, MAIO = %d, N = %d, FN = %d: %s" % (hsn, maio, n, fn, e))
+        if got[0] != got[1]:
+            ma = mas[n]
+            txt = ["MA[%d]" % ma.index(g) if g in ma else repr(g)[:60] for g in got]
+            return k, "HSN = %d, MAIO = %d, N = %d, FN = %d (T1 = %d, T2 = %d, T3 = %d): %s selected, %s with a reduction modulo N" % (
+                hsn, maio, n, fn, fn // 1326, fn % 26, fn % 51, txt[0], txt[1])
+    return k, None
 
 
 def compare_formula(L, file, func, found, want, names, line, lang, rntable):
@@ -732,34 +769,219 @@ def r2_c_mask(L, cs):
     L.floor("C07.R2", "2^NBIN masks (C)", nmasks, 1)
 
 
+OPERAND = V("<operand>")
+REDUCTION_FOLD_CAP = 4000000      # (operand value, N) pairs one reduction may be folded for
+
+
+def _domain_box(n):
+    """the property's domain for one allocation size: 2^NBIN fixed by N, HSN / MAIO in 0..63, time components in range"""
+    return {N: (n, n), P: (nbin_mask(n) + 1,) * 2, HSN: (0, 63), MAIO: (0, 63), FN: (0, G.HYPERFRAME - 1),
+            V("T1"): (0, 2047), V("T2"): (0, 25), V("T3"): (0, 50)}
+
+
+def _subst(t, old, new):
+    """t with every occurrence of the sub-term `old` replaced -- purely syntactic, the result is only folded"""
+    if t == old:
+        return new
+    if t[0] in ("c", "v"):
+        return t
+    if old[0] == "+" and t[0] == "+":
+        # sums are flat in the normal form: `old - 2*N` does not contain `old` as a sub-term, but all of its operands
+        rest = list(t[1:])
+        for o in old[1:]:
+            if o not in rest:
+                break
+            rest.remove(o)
+        else:
+            return ("+", new) + tuple(_subst(x, old, new) for x in rest)
+    return (t[0],) + tuple(_subst(x, old, new) if isinstance(x, tuple) else x for x in t[1:])
+
+
+def _term_size(t):
+    return sum(1 for _ in G.subterms(t))
+
+
+def reduction_by_fold(x, settle, rntable, pending):
+    """x: a sub-term of the hopping term built with conditional subtractions (`red`) -- a chain of them, a chain behind
+    a threshold with a `%` fall-back (a division-free reduction helper, inlined), ...  Decided by its semantics, not by
+    its shape: if x is a function f(S, N) of ONE operand sub-term S and of the allocation size only (every other leaf of
+    x lies inside S), f is folded by the checker's own arithmetic for every N of the domain 1..64 and every integer of
+    the interval enclosure of S for that N (2^NBIN fixed by N; HSN, MAIO in 0..63; T1..T3 in their ranges; table values
+    from the reference table).  The enclosure contains every value the operand can take, the domain is finite, the
+    fold is exhaustive: f(s, N) == s mod N on all of it proves x == S mod N for every input of the property.
+    Returns (settled S, f with the operand named <operand>, pairs folded, text of the enclosure) for the largest such
+    S, or None when no operand sub-term makes x a reduction modulo N on its whole enclosure (nothing is decided then).
+    `pending` is the caller's list of obligations not yet recorded: what settling a rejected candidate operand added to
+    it is taken back (a sub-term is judged only where it really takes part in the result)."""
+    cands, seen = [], set()
+    for S in G.subterms(x):
+        if S is x or S in seen or S[0] in ("c", "cmp", "not", "and", "or") or S in (N, P):
+            continue
+        seen.add(S)
+        cands.append(S)
+    cands.sort(key=lambda s: (-_term_size(s), repr(s)))
+    for S in cands:
+        f = _subst(x, S, OPERAND)
+        vs = variables(f)
+        if OPERAND not in vs or not vs <= {OPERAND, N, P}:
+            continue
+        try:
+            fn = G.term_fn(f, {OPERAND: "x", N: "n", P: "p"}, ["x", "n", "p"])
+        except AnalysisError:
+            continue
+        mark = len(pending)
+        Ss = settle(S)
+        ivs, total = [], 0
+        for n in DOMAIN_N:
+            iv = G.interval(Ss, _domain_box(n), {RN: rntable})
+            if not (iv[0] >= 0 and iv[1] < G.INF):
+                ivs = None
+                break
+            ivs.append((n, int(iv[0]), int(iv[1])))
+            total += int(iv[1]) - int(iv[0]) + 1
+        ok = ivs is not None and total <= REDUCTION_FOLD_CAP
+        try:
+            ok = ok and all(fn(v, n, nbin_mask(n) + 1) == v % n for n, lo, hi in ivs for v in range(lo, hi + 1))
+        except (G._Outside, ArithmeticError, TypeError, ValueError):
+            ok = False
+        if not ok:
+            del pending[mark:]
+            continue
+        his = [hi for _, _, hi in ivs]
+        return Ss, f, total, "x in 0..%d for N = 1, ..., 0..%d for N = 64 (largest bound %d)" % (his[0], his[-1], max(his))
+    return None
+
+
 def settle_reductions(L, file, func, term, line, rntable, names):
     """`x = S; if (x >= N) x -= N` (one conditional subtraction) is S mod N
     exactly when S <= 2N - 1.  Decided with the interval of S for every N of
     the domain (2^NBIN fixed by N; HSN, MAIO in 0..63; T1..T3 in their
     ranges).  Proven -> rewritten to mod silently; not within 2N - 1 -> the
-    reduction is reported (R3) and the comparison continues with mod."""
+    reduction is reported (R3) and the comparison continues with mod.
+    Anything else built from conditional subtractions (a chain of them, a chain behind a threshold test with a `%`
+    fall-back: an inlined division-free reduction helper) is decided by reduction_by_fold -- an exhaustive fold over the
+    finite domain of (operand value, N): equal to `operand mod N` everywhere -> rewritten to mod (obligation recorded);
+    otherwise the sub-term stays as it is written and the formula rule (R3) decides the whole term by folding it on its
+    witness families -- such an arrangement is never reported by itself."""
+    memo = {}
+    pending = []        # obligations / evidence in the order they were found; recorded once the whole term is settled
+
+    def settle(t):
+        return G.renorm(t, leaf, band_pnm)
+
+    def composite(x):
+        """a conditional arrangement around conditional subtractions, a chain of them, or one by another modulus"""
+        if x[0] == "ite":
+            return "red" in G.heads(x)
+        return x[0] == "red" and (x[1][0] == "red" or x[2] != N)
+
     def leaf(x):
+        if x[0] not in ("ite", "red"):
+            return None
+        if x in memo:
+            pending.extend(memo[x][1])
+        else:
+            mark = len(pending)
+            r = leaf1(x)
+            memo[x] = (r, pending[mark:])
+        return memo[x][0]
+
+    def folded(r):
+        S, f, k, encl = r
+        pending.append(("C07.R3", file, func,
+             "hopping formula of %s: the division-free reduction `%s` of x = %s equals x mod N for every value of x and "
+             "every N in 1..64" % (func, G.show(f, {OPERAND: "x"})[:200], G.show(S, names)[:150]),
+             "equal to x mod N on the whole finite domain",
+             "equal for all %d (x, N) pairs: %s (exhaustive fold over the interval enclosure of the operand)" % (k, encl),
+             True, line))
+        pending.append({"reduction": G.show(f, {OPERAND: "x"})[:200], "operand": G.show(S, names)[:200], "pairs": k})
+        return X.mod(S, N)
+
+    def leaf1(x):
+        if composite(x):
+            r = reduction_by_fold(x, settle, rntable, pending)
+            if r is not None:
+                return folded(r)
+            if x[0] == "red":
+                # no operand makes it a reduction modulo N on its whole enclosure: left as written, decided by R3's fold
+                return ("red", settle(x[1]), settle(x[2]))
+            return None
         if x[0] != "red":
             return None
-        S, m = G.renorm(x[1], leaf, band_pnm), G.renorm(x[2], leaf, band_pnm)
+        S, m = settle(x[1]), settle(x[2])
         if m != N:
             return ("red", S, m)
+        # an operand with an undecided conditional subtraction inside has no meaningful enclosure of its own: it is
+        # enclosed as if those were reductions, and this one is then undecided as well (settled with them below)
+        inner = "red" in G.heads(S)
+        Sm = G.renorm(S, lambda t: X.mod(t[1], t[2]) if t[0] == "red" else None, band_pnm) if inner else S
         bad = []
         for n in DOMAIN_N:
-            rng = {N: (n, n), P: (nbin_mask(n) + 1,) * 2, HSN: (0, 63), MAIO: (0, 63), FN: (0, G.HYPERFRAME - 1),
-                   V("T1"): (0, 2047), V("T2"): (0, 25), V("T3"): (0, 50)}
-            iv = G.interval(S, rng, {RN: rntable})
+            rng = _domain_box(n)
+            iv = G.interval(Sm, rng, {RN: rntable})
             if not (iv[0] >= 0 and iv[1] <= 2 * n - 1):
                 bad.append((n, iv))
-        L.ob("C07.R3", file, func,
-             "hopping formula of %s: the single conditional subtraction `x = %s; if x >= N: x -= N` is a reduction modulo N "
-             "only for operands <= 2N - 1" % (func, G.show(S, names)[:150]),
-             "operand <= 2N - 1 for every N in 1..64 (HSN, MAIO in 0..63)",
-             "holds for all 64 values of N" if not bad else "operand can exceed 2N - 1 for %d of 64 values of N: %s" % (
-                 len(bad), ", ".join("N = %d: operand in %s, 2N - 1 = %d" % (n, G.ivtxt(iv), 2 * n - 1) for n, iv in bad[:3])),
-             not bad, line)
+        if bad and S[0] == "ite" and not inner:
+            # the operand is itself conditional (`if (x >= 2n) x -= n; if (x >= n) x -= n` ...): the enclosure of the
+            # whole operand says little; the arrangement may still be a reduction of a smaller operand inside it
+            r = reduction_by_fold(("red", S, m), settle, rntable, pending)
+            if r is not None:
+                return folded(r)
+        ob = ("C07.R3", file, func,
+              "hopping formula of %s: the single conditional subtraction `x = %s; if x >= N: x -= N` is a reduction modulo N "
+              "only for operands <= 2N - 1" % (func, G.show(Sm, names)[:150]),
+              "operand <= 2N - 1 for every N in 1..64 (HSN, MAIO in 0..63)",
+              ("holds for all 64 values of N" + (" provided the conditional subtractions inside the operand are reductions"
+                                                  if inner else "")) if not bad else
+              "operand can exceed 2N - 1 for %d of 64 values of N: %s" % (
+                  len(bad), ", ".join("N = %d: operand in %s, 2N - 1 = %d" % (n, G.ivtxt(iv), 2 * n - 1) for n, iv in bad[:3])),
+              not bad and not inner, line)
+        if bad or inner:
+            # the enclosure ignores the conditions under which the subtraction is reached (`if (x < 2n) ... x -= n`) and
+            # correlations between operands: it proves a reduction, it does not refute one.  Kept as written; whether it
+            # matters is decided below on the whole term.
+            pending.append(("suspect", ("red", S, m), ob))
+            return ("red", S, m)
+        pending.append(ob)
         return X.mod(S, m)
-    return G.renorm(term, leaf, band_pnm)
+    out = G.renorm(term, leaf, band_pnm)
+    suspects = {}
+    for o in pending:
+        if isinstance(o, dict):
+            fl = L.extra.setdefault("reductions_folded", {}).setdefault(func, [])
+            if o not in fl:
+                fl.append(o)
+        elif o[0] == "suspect":
+            suspects[o[1]] = o[2]
+        else:
+            L.ob(*o)
+    present = {x for x in G.subterms(out) if x in suspects}
+    if present:
+        # a single conditional subtraction without an interval proof: refuted only by an input of the property's domain on
+        # which it is reached with an operand >= 2N and the selected channel changes -- the term as written and the term
+        # with `mod N` in its place are folded on the witness families of R3 and compared with each other
+        def to_mod(t):
+            return X.mod(G.renorm(t[1], to_mod, band_pnm), G.renorm(t[2], to_mod, band_pnm)) if t in present else None
+        as_mod = G.renorm(out, to_mod, band_pnm)
+        k, w = fold_pair(out, as_mod, rntable)
+        if w is not None:
+            for x in sorted(present, key=repr):
+                ob = suspects[x]
+                L.ob(*(ob[:5] + ("%s -- e.g. %s" % (ob[5], w),) + ob[6:]))
+            out = as_mod            # reported; the comparison with the specification term continues with mod
+        else:
+            def interval_proofs():
+                for x in sorted(present, key=repr):
+                    L.ob(*suspects[x])
+            L.structural("C07.R3 %s: every single conditional subtraction has an interval proof operand <= 2N - 1" % func,
+                         interval_proofs)
+            L.extra.setdefault("reductions_without_interval_proof", {})[func] = {
+                "reductions": sorted(G.show(x, names)[:200] for x in present),
+                "decided": "the term selects the same channel as with `mod N` in their place on all %d witnesses" % k}
+    left = sorted({G.show(x, names)[:200] for x in G.subterms(out) if x[0] == "red"})
+    if left:
+        L.extra.setdefault("reductions_left_to_witnesses", {})[func] = left
+    return out
 
 
 def spec_py():
@@ -1127,15 +1349,136 @@ def r6_getters(L, repo):
                 continue            # already reported
             _memo_check(L, repo, q, leaf, conds, ps[1], fd.lineno)
     L.floor("C07.R6", "resolve() call sites in the frequency getters", n, 2)
+    r6_fh_stores(L, repo)
+
+
+def _local_bindings(fd, name):
+    """value expressions of every binding of the local `name` in function fd (nested scopes included), or None when
+    it is a parameter or is bound other than by a plain `name = value` / `name: T = value` (loop target, unpacking,
+    with ... as, augmented assignment, import, global / nonlocal, del ...)"""
+    a = fd.args
+    params = {x.arg for x in a.args + a.kwonlyargs + getattr(a, "posonlyargs", [])}
+    params |= {x.arg for x in (a.vararg, a.kwarg) if x is not None}
+    if name in params:
+        return None
+    vals = []
+    for n in ast.walk(fd):
+        if isinstance(n, (ast.Global, ast.Nonlocal)) and name in n.names:
+            return None
+        if isinstance(n, (ast.Import, ast.ImportFrom)) and any((al.asname or al.name.split(".")[0]) == name for al in n.names):
+            return None
+        if isinstance(n, (ast.FunctionDef, ast.AsyncFunctionDef, ast.ClassDef)) and n is not fd and n.name == name:
+            return None
+        if isinstance(n, ast.ExceptHandler) and n.name == name:
+            return None
+        if isinstance(n, ast.arg) and n.arg == name:
+            return None                                     # parameter of a nested function / lambda: another variable
+        if isinstance(n, ast.Name) and n.id == name and isinstance(n.ctx, (ast.Store, ast.Del)):
+            par = getattr(n, "_parent", None)
+            if isinstance(par, ast.Assign) and len(par.targets) == 1 and par.targets[0] is n:
+                vals.append(par.value)
+            elif isinstance(par, ast.AnnAssign) and par.target is n and par.value is not None:
+                vals.append(par.value)
+            elif isinstance(par, ast.AnnAssign) and par.target is n:
+                continue                                    # bare annotation: binds nothing
+            else:
+                return None
+    return vals
+
+
+_NOT_AN_OBJECT = ("tuple", "list", "dict", "set", "frozenset", "str", "bytes", "bytearray", "int", "float", "bool", "len",
+                  "sorted", "zip", "range", "enumerate", "map", "filter", "reversed", "sum", "min", "max", "abs", "repr")
+
+
+def _fh_value(e, fd, depth=0):
+    """what an expression stored as the hopping configuration evaluates to, by origin rather than by its text:
+    'ok' -- None or the result of a HoppingParams(...) constructor call on every path; 'bad' -- a value that is
+    certainly neither (a literal, a container, a string, arithmetic); None -- origin not decidable here.  A local name
+    is followed to its definitions (all of them plain assignments in the same function: a local holds one of the
+    values assigned to it, or the read raises)."""
+    if isinstance(e, ast.Constant):
+        return "ok" if e.value is None else "bad"
+    if isinstance(e, ast.Call):
+        f = e.func
+        name = f.id if isinstance(f, ast.Name) else f.attr if isinstance(f, ast.Attribute) else None
+        if name == "HoppingParams":
+            return "ok"
+        if isinstance(f, ast.Name) and name in _NOT_AN_OBJECT and (fd is None or _local_bindings(fd, name) == []):
+            return "bad"                                    # a builtin that returns a container / number / string
+        return None
+    if isinstance(e, ast.IfExp):
+        arms = [_fh_value(e.body, fd, depth), _fh_value(e.orelse, fd, depth)]
+        return "bad" if "bad" in arms else "ok" if arms == ["ok", "ok"] else None
+    if isinstance(e, ast.NamedExpr):
+        return _fh_value(e.value, fd, depth)
+    if isinstance(e, (ast.Tuple, ast.List, ast.Dict, ast.Set, ast.JoinedStr, ast.ListComp, ast.DictComp, ast.SetComp,
+                      ast.GeneratorExp, ast.BinOp, ast.Compare, ast.Lambda)):
+        return "bad"
+    if isinstance(e, ast.Name) and fd is not None and depth < 4:
+        if e.id in [x.arg for x in (fd.args.vararg, fd.args.kwarg) if x is not None] and \
+                not any(isinstance(n, ast.Name) and n.id == e.id and isinstance(n.ctx, (ast.Store, ast.Del)) for n in ast.walk(fd)):
+            return "bad"                                    # *args is a tuple, **kwargs a dict
+        vals = _local_bindings(fd, e.id)
+        if not vals:
+            return None
+        got = [_fh_value(v, fd, depth + 1) for v in vals]
+        return "bad" if "bad" in got else "ok" if all(g == "ok" for g in got) else None
+    return None
+
+
+def r6_fh_stores(L, repo):
+    """every store to an attribute `fh` of a transceiver leaves a HoppingParams object or None there -- decided on the
+    origin of the stored value (constructor call / None, through local temporaries and conditional expressions)."""
+    key = "`fh` holds a HoppingParams object or None"
+    unknown, skipped = [], []
     for m in repo.tk_modules():
         for node, k in attr_accesses(m.tree, "fh"):
             if k == "load":
                 continue
+            q = qualname(node)
+            cd = enclosing_class(node)
+            if isinstance(node.value, ast.Name) and node.value.id == "self" and cd is not None:
+                ci = repo.cls(m, cd.name)
+                if ci is not None and not any(c.name == "Transceiver" for c in repo.mro(ci)):
+                    # `self.fh` of a class that is no transceiver: another object's attribute of the same name
+                    skipped.append("%s (%s)" % (q, m.rel))
+                    continue
             par = getattr(node, "_parent", None)
-            val = canon(par.value) if isinstance(par, ast.Assign) else None
-            ok = val is not None and (val == "None" or val.startswith("HoppingParams("))
-            L.ob("C07.R6", m.rel, qualname(node), "`fh` holds a HoppingParams object or None", "HoppingParams(...) | None", val, ok,
-                 node.lineno)
+            val = None
+            if isinstance(par, ast.Assign) and any(t is node for t in par.targets):
+                val = par.value
+            elif isinstance(par, ast.AnnAssign) and par.target is node:
+                if par.value is None:
+                    continue                                # bare annotation: stores nothing
+                val = par.value
+            elif isinstance(par, (ast.Tuple, ast.List)) and isinstance(getattr(par, "_parent", None), ast.Assign) \
+                    and isinstance(par._parent.value, (ast.Tuple, ast.List)) and len(par._parent.value.elts) == len(par.elts) \
+                    and not any(isinstance(x, ast.Starred) for x in list(par.elts) + list(par._parent.value.elts)):
+                val = par._parent.value.elts[[i for i, t in enumerate(par.elts) if t is node][0]]
+            if k != "store" or val is None:
+                # augmented assignment, del, loop / with target, unpacking of a computed value
+                if k == "aug":
+                    L.ob("C07.R6", m.rel, q, key, "HoppingParams(...) | None", "augmented assignment to `%s`" % canon(node), False,
+                         node.lineno)
+                else:
+                    unknown.append("%s: %s of `%s`" % (q, k, canon(node)))
+                continue
+            fd = enclosing_func(node)
+            if not isinstance(fd, (ast.FunctionDef, ast.AsyncFunctionDef)):
+                fd = None
+            verdict = _fh_value(val, fd)
+            if verdict is None:
+                unknown.append("%s stores `%s`" % (q, canon(val)[:80]))
+                continue
+            found = canon(val)
+            if isinstance(val, ast.Name) and fd is not None and _local_bindings(fd, val.id):
+                found = "%s (local, assigned %s)" % (val.id, " / ".join(sorted({canon(v)[:60] for v in _local_bindings(fd, val.id)})))
+            L.ob("C07.R6", m.rel, q, key, "HoppingParams(...) | None", found, verdict == "ok", node.lineno)
+    if skipped:
+        L.extra["fh_stores_of_other_classes"] = sorted(set(skipped))
+    if unknown:
+        raise AnalysisError("the value stored as hopping configuration cannot be traced to HoppingParams(...) / None: %s; "
+                            "unclassifiable" % "; ".join(unknown[:3]))
 
 
 class _UseSym(G.CSym):
